@@ -272,6 +272,8 @@ class Facts:
         self.kw = []
         self.crates = []
         self.stolen = []
+        self.eqops = []
+        self.binary_seen = {}
         files = sorted(glob.glob(os.path.join(directory, "*.jsonl")))
         for f in files:
             crate = None
@@ -305,6 +307,11 @@ class Facts:
                             self.kw = r["list"]
                     elif k == "stolen":
                         self.stolen.append(r["path"])
+                    elif k == "eqop_scan":
+                        self.binary_seen[crate] = max(self.binary_seen.get(crate, 0), r["binary"])
+                    elif k == "eqop":
+                        r["crate"] = crate
+                        self.eqops.append(r)
         self._cg = None
         self._rcg = None
 
